@@ -70,6 +70,12 @@ def extract(n, roots, defs=None, local_atoms=None, depth=0, bool_atoms=None, ato
         a = rec(n["l"])
         b = rec(n["r"])
         return ("and" if n["op"] in ("&&", "&") else "or", a, b)
+    if k == "binary" and n["op"] in ("==", "!=", "^") and str(peel(n["l"]).get("ty", "")).lstrip("&") == "bool" and str(peel(n["r"]).get("ty", "")).lstrip("&") == "bool":
+        # equality / inequality of two booleans: iff / xor
+        a = rec(n["l"])
+        b = rec(n["r"])
+        iff = ("or", ("and", a, b), ("and", ("not", a), ("not", b)))
+        return iff if n["op"] == "==" else ("not", iff)
     if k == "binary" and n["op"] in ("==", "!=", ">", ">=", "<", "<="):
         l, r = peel(n["l"]), peel(n["r"])
         op = n["op"]
